@@ -303,10 +303,15 @@ func classifyDeath(stderr string, ws syscall.WaitStatus) (kind, detail string) {
 		// the fault happened in a goroutine started by a dependency: name its top frame instead
 		for _, l := range lines[1:] {
 			if l != "" && !strings.HasPrefix(l, "\t") && !strings.HasPrefix(l, "runtime.") && !strings.HasPrefix(l, "panic(") {
-				if k := strings.LastIndex(l, "("); k > 0 {
-					l = l[:k]
+				// keep the package only: one key per dependency, whichever of its functions tripped
+				if k := strings.LastIndex(l, "/"); k >= 0 {
+					if d := strings.Index(l[k:], "."); d >= 0 {
+						l = l[:k+d]
+					}
+				} else if d := strings.Index(l, "."); d >= 0 {
+					l = l[:d]
 				}
-				site = l
+				site = "dep:" + l
 				break
 			}
 		}
